@@ -92,7 +92,98 @@ def recreate_cases(tier):
     return cases
 
 
+# ---- (b2) caller's NON-array inputs: wall point list, settings dictionaries -----------------------
+CALLER_SRC = r"""
+import sys, io, contextlib, warnings, json, copy
+sys.path.insert(0, %r)
+warnings.simplefilter("ignore")
+import numpy as np
+from vlib import families, lattice
+from hypnotoad.cases import tokamak
+geom, wallname, container, orth = json.loads(sys.argv[1])
+c = families.normalise(lattice.mk(geom, orth, opt=dict(refine_methods=["integrate+newton", "integrate"])))
+c["wall"] = wallname
+inp = families.build_inputs(c)
+w = inp["wall"]
+if container == "list-of-lists":
+    w = [list(p) for p in w]
+elif container == "ndarray":
+    w = np.array(w)
+elif container == "closed-list":
+    w = list(w) + [w[0]]
+settings = copy.deepcopy(dict(c["options"]))
+non = copy.deepcopy(dict(c["nonorth"])) if c["nonorth"] else ({} if not orth else None)
+snap = copy.deepcopy(dict(wall=w, settings=settings, nonorthogonal_settings=non))
+def same(a, b):
+    if isinstance(a, np.ndarray) or isinstance(b, np.ndarray):
+        return type(a) is type(b) and a.shape == b.shape and bool(np.array_equal(a, b))
+    if isinstance(a, dict):
+        return isinstance(b, dict) and list(a) == list(b) and all(same(a[k], b[k]) for k in a)
+    if isinstance(a, (list, tuple)):
+        return type(a) is type(b) and len(a) == len(b) and all(same(x, y) for x, y in zip(a, b))
+    return type(a) is type(b) and a == b
+res = []
+with contextlib.redirect_stdout(io.StringIO()):
+    for build in (1, 2):
+        try:
+            eq = tokamak.TokamakEquilibrium(inp["R1D"].copy(), inp["Z1D"].copy(), inp["psi2D"].copy(), inp["psi1D"].copy(),
+                                            inp["fpol1D"].copy(), wall=w, settings=settings, nonorthogonal_settings=non)
+        except Exception as e:
+            res.append("refused " + type(e).__name__)
+            break
+        now = dict(wall=w, settings=settings, nonorthogonal_settings=non)
+        ch = [k for k in snap if not same(snap[k], now[k])]
+        res.append("changed " + ",".join(ch) if ch else "unchanged")
+        stored = [(p.R, p.Z) for p in eq.wall]
+        res.append("stored_wall_points=%%d" %% len(stored))
+sys.stdout = sys.__stdout__
+print("OUTCOME=" + " | ".join(res), flush=True)
+import os
+os._exit(0)
+"""
+
+
+def caller_cases(tier):
+    walls = ["W0", "W1", "W2", "W6"] + (["W3", "W7", "W4"] if tier == "thorough" else [])
+    conts = ["list-of-tuples", "list-of-lists", "ndarray", "closed-list"]
+    geoms = [("lsn", True)] + ([("cdn", True), ("lsn", False), ("usn", True)] if tier == "thorough" else [("cdn", False)])
+    return [[g, w, k, o] for (g, o) in geoms for w in walls for k in conts]
+
+
+def run_caller_case(case):
+    import json, signal, subprocess, sys
+    p = subprocess.Popen([sys.executable, "-c", CALLER_SRC % (os.path.dirname(os.path.dirname(os.path.abspath(__file__))),),
+                          json.dumps(case)], stdout=subprocess.PIPE, stderr=subprocess.DEVNULL, text=True,
+                         start_new_session=True, env=dict(os.environ, MPLBACKEND="Agg"))
+    try:
+        out, _ = p.communicate(timeout=900)
+    except subprocess.TimeoutExpired:
+        out = "OUTCOME=timeout"
+    finally:
+        try:
+            os.killpg(p.pid, signal.SIGKILL)
+        except ProcessLookupError:
+            pass
+    for line in (out or "").splitlines():
+        if line.startswith("OUTCOME="):
+            return line[8:]
+    return "crashed"
+
+
 def run(ctx):
+    from concurrent.futures import ThreadPoolExecutor
+    cc = caller_cases(ctx.tier)
+    outcomes = {}
+    with ThreadPoolExecutor(8) as tp:
+        for case, res in zip(cc, tp.map(run_caller_case, cc)):
+            outcomes[res.split(" | ")[0].split(" ")[0]] = outcomes.get(res.split(" | ")[0].split(" ")[0], 0) + 1
+            parts = res.split(" | ")
+            if any(x.startswith("changed ") for x in parts) or res in ("crashed", "timeout"):
+                ctx.violation("caller inputs | wall list or settings dictionaries modified by TokamakEquilibrium",
+                              dict(geom=case[0], wall=case[1], container=case[2], orthogonal=case[3], outcome=res),
+                              replay=dict(kind="caller", case=case))
+    ctx.set("caller_nonarray_input_cases", len(cc))
+    ctx.set("caller_nonarray_input_outcomes", outcomes)
     M = menu(ctx.tier)
     depth = 2 if ctx.tier == "quick" else 3
     singles = [m for _, m in M]
